@@ -25,7 +25,7 @@ CLAIMS = {
                 text='Lean theorems: C09_range (range = entry/exit offsets, @string slice, also on cache hits), offsets monotone, C09_nested (all ranges inside the parent), C09_ordered (successive matches in consecutive intervals). Tie: pegdiff (positions are part of the compared tree; boundary/inside-input oracle on the implementation tree).',
                 tech='Lean 4 invariant proofs over the evaluator (ranges, monotone offsets, nesting) + differential correspondence'),
     'C11': dict(engine='unitdiff', ref='6 C11',
-                text='Lean theorems: C11_linecol (line = newlines before + 1, column = characters since the last newline + 1, printed line), totality with clamping (C11_any_position), caret under the column. Tie: unitdiff, exhaustive over all texts over {a, e-acute, newline, space} up to length 5 (quick) / 7 (thorough) x all boundary positions, Display output compared byte for byte with the model and with an independent oracle, in three renderings: colours off, colours forced on (escape sequences stripped), and a build of the runtime without its `colored` feature.',
+                text='Lean theorems: C11_linecol (line = newlines before + 1, column = characters since the last newline + 1, printed line), totality with clamping (C11_any_position), caret under the column. Tie: unitdiff, exhaustive over all texts over {a, e-acute, newline, space} up to length 5 (quick) / 7 (thorough) x all boundary positions, Display output compared byte for byte with the model and with an independent oracle, in three renderings: colours off, colours forced on (escape sequences stripped), and a build of the runtime without its `colored` feature. Lines longer than 65 535 characters included (defect F10, repaired).',
                 tech='Lean 4 proof about the model of PrettyParseError + exhaustive small-scope differential table'),
     'C13': dict(engine='pegdiff', ref='6 C13',
                 text='Lean theorems: C13_parsers_agree (parseAdvanced of the grammar with includes textually inlined = parseAdvanced of the original, as an equation: acceptance, tree, positions, error, cache), C13_types (same field descriptors), C13_in_context, C13_site. Tie: pegdiff incl family (grammar vs printed inlined twin, impl-vs-impl and impl-vs-model).',
